@@ -129,8 +129,8 @@ func (o *Object) clone(epoch int64) *Object {
 // ---- helpers ----
 
 func mkInt(w uint8, signed bool, c uint64) Int { return Int{W: w, Signed: signed, C: c & mask(w)} }
-func mkI64(c int64) Int                         { return Int{W: 64, Signed: true, C: uint64(c)} }
-func mkByte(c byte) Int                         { return Int{W: 8, C: uint64(c)} }
+func mkI64(c int64) Int                        { return Int{W: 64, Signed: true, C: uint64(c)} }
+func mkByte(c byte) Int                        { return Int{W: 8, C: uint64(c)} }
 
 func (i Int) sval() int64 {
 	if !i.Signed {
